@@ -640,6 +640,21 @@ class SReal:
     def __int__(self):
         raise Unsupported("int(SReal): use the shimmed int()")
 
+    def __floor__(self):
+        c = self.concrete()
+        if c is not None:
+            return c.numerator // c.denominator
+        return SInt.wrap(_z(self.num) / _z(self.den))      # den > 0: z3 div is floor
+
+    def __ceil__(self):
+        c = self.concrete()
+        if c is not None:
+            return -((-c.numerator) // c.denominator)
+        return SInt.wrap(-((-_z(self.num)) / _z(self.den)))
+
+    def __trunc__(self):
+        return sym_int(self)
+
     def __repr__(self):
         return "<SReal>"
 
